@@ -237,7 +237,7 @@ def replay(pid, case):
 
 def run(pid, tier, seed):
     t0 = time.time()
-    shards, n, per_prog, cli_every = (8, 25, 6, 20) if tier == "quick" else (16, 400, 0, 200)
+    shards, n, per_prog, cli_every = (16, 40, 6, 25) if tier == "quick" else (16, 400, 0, 200)
     camp = core.Campaign()
     for name, rc in core.regress_cases(pid):
         for k, what in replay(pid, rc["case"]):
